@@ -68,8 +68,15 @@ void on_free(void* p, std::size_t) noexcept {
 }
 
 bool sweep_mode = false;
+std::uint64_t sweep_steps = 0;
 
 void sched_cb(unsigned k, const void* a) noexcept {
+  if (sweep_mode && k != 7 && ++sweep_steps > 4000000) {
+    // a normal sweep takes a few thousand hooked accesses: an operation restarts forever
+    std::printf("FAIL C14 the single-threaded sweep after the execution does not terminate: an operation restarts forever although nothing else runs\n");
+    std::fflush(nullptr);
+    _exit(EXIT_LIVELOCK);
+  }
   if (sweep_mode && k == 7) {
     // single-threaded sweep reached a spin-wait: a lock was left behind
     std::printf("FAIL C14 a node or root lock was left locked: the single-threaded sweep after the execution spins\n");
@@ -185,6 +192,33 @@ struct olc_harness final : harness {
         if (r.chance(1, 2)) init.insert(k2);
       }
     }
+    // nested boundary: in a third of the programs the PARENT of the focus node also sits at a size-class
+    // boundary (the focus subtree plus pf-1 leaves under it), with absent siblings at that level, so that
+    // a structural change of the parent can race with a structural change of the focus node
+    std::vector<std::string> parent_present, parent_absent;
+    if (fpos >= 1 && r.chance(1, 3)) {
+      static const unsigned pfans[] = {2, 3, 4, 4, 5, 16, 17};
+      const unsigned pf = pfans[r.below(sizeof pfans / sizeof pfans[0])];
+      const unsigned ppos = static_cast<unsigned>(r.below(fpos));  // the parent branches at this byte position
+      std::set<unsigned> pb;
+      while (pb.size() < pf + 1) {
+        const unsigned b = static_cast<unsigned>(r.below(256));
+        if (b != static_cast<unsigned char>(base[ppos])) pb.insert(b);
+      }
+      unsigned idx = 0;
+      for (unsigned b : pb) {
+        std::string k = base;
+        k[ppos] = static_cast<char>(b);
+        uni.insert(k);
+        if (idx + 1 < pf) {  // pf-1 present siblings + the focus branch = pf children
+          init.insert(k);
+          parent_present.push_back(k);
+        } else {
+          parent_absent.push_back(k);
+        }
+        ++idx;
+      }
+    }
     if (r.chance(1, 12)) init.clear();  // empty tree: root creation / removal races
     std::vector<std::string> U(uni.begin(), uni.end());
     std::string p = "threads " + std::to_string(T) + "\n";
@@ -214,10 +248,12 @@ struct olc_harness final : harness {
           if (w < 3) {
             l += "get " + to_hex(r.chance(2, 3) && !init.empty() ? *std::next(init.begin(), static_cast<long>(r.below(init.size()))) : r.pick(U));
           } else if (w < 6) {
-            const std::string k = (r.chance(2, 3) && !absent_children.empty()) ? r.pick(absent_children) : r.pick(U);
+            std::string k = (r.chance(2, 3) && !absent_children.empty()) ? r.pick(absent_children) : r.pick(U);
+            if (!parent_absent.empty() && r.chance(1, 3)) k = r.pick(parent_absent);
             l += "ins " + to_hex(k) + " " + std::to_string(vseed++);
           } else {
-            const std::string k = (r.chance(2, 3) && !present_children.empty()) ? r.pick(present_children) : r.pick(U);
+            std::string k = (r.chance(2, 3) && !present_children.empty()) ? r.pick(present_children) : r.pick(U);
+            if (!parent_present.empty() && r.chance(1, 3)) k = r.pick(parent_present);
             l += "rem " + to_hex(k);
           }
         }
@@ -229,6 +265,7 @@ struct olc_harness final : harness {
       st->inc("programs_threads_" + std::to_string(T));
       st->inc("programs_focus_fanout_" + std::to_string(fan));
       if (scanners) st->inc("programs_with_scanner");
+      if (!parent_present.empty()) st->inc("programs_with_parent_at_boundary");
     }
     return p;
   }
@@ -454,6 +491,7 @@ struct olc_harness final : harness {
       for (auto& o : pt)
         if (o.k == O_GET || o.k == O_INS || o.k == O_REM) all_keys.insert(o.key);
     sweep_mode = true;
+    sweep_steps = 0;
     kvmap final_state;
     {
       const std::uint64_t after = S.stamp();
